@@ -28,7 +28,7 @@ func init() {
 		},
 		Batch: func(t string) int { return 75 },
 		Floors: []string{"values_encoded", "independent_decodes", "library_decodes", "shredded_files", "shredded_values_checked", "schema_exact", "schema_partial_or_mismatch", "schema_list", "schema_object", "read_convert_to_unshredded", "read_shredded_typed",
-			"read_raw_columns", "write_typed_buffer", "write_rows_deconstruct", "kind_object", "kind_array", "kind_decimal16", "kind_uuid", "kind_timestamp_ntz_nanos", "wide_objects_2byte_ids", "wide_array_in_wide_array", "strings_around_63", "marshal_roundtrips", "place_top", "place_repeated", "place_in_group", "schema_list_under_repeated", "write_go_values", "write_encoded_bytes", "typed_leaf_values_stored", "residual_values_stored"},
+			"read_raw_columns", "write_typed_buffer", "write_rows_deconstruct", "kind_object", "kind_array", "kind_decimal16", "kind_uuid", "kind_timestamp_ntz_nanos", "wide_objects_2byte_ids", "wide_array_in_wide_array", "strings_around_63", "marshal_roundtrips", "place_top", "place_repeated", "place_in_group", "place_optional", "optional_group_null", "schema_list_under_repeated", "write_go_values", "write_encoded_bytes", "typed_leaf_values_stored", "residual_values_stored"},
 		Rule: "case = one of (a) a variant value tree over every primitive kind at boundary values (int widths at min/max, decimals 4/8/16 with scales, four timestamp flavours, strings of 0/63/64/65 bytes, binary, uuid), depth <= 4, objects with 0..40 fields incl. > 255 distinct keys, arrays of 0..300 elements: " +
 			"Encode, then an independent decoder written from VariantEncoding.md and the library's Decode must both return an equal tree; Marshal/Unmarshal of the Go form; (b) a (shredding schema, 6 values) pair: schema from the same pools (exact, partial, mismatching, nested list/object); written through GenericWriter, GenericBuffer+WriteRowGroup and WriteRows(Deconstruct); " +
 			"read back converted to unshredded (metadata,value), through the shredded schema, and by reassembling raw columns; every read must equal the written value under structural equality. Distinct = descriptor hash",
@@ -565,6 +565,9 @@ var c19Places = []c19Place{
 	{"repeated", "vars", 1, 1, func(n parquet.Node) *parquet.Schema {
 		return parquet.NewSchema("table", parquet.Group{"id": parquet.Int(32), "vars": parquet.Repeated(n)})
 	}},
+	{"optional", "var", 1, 0, func(n parquet.Node) *parquet.Schema {
+		return parquet.NewSchema("table", parquet.Group{"id": parquet.Int(32), "var": parquet.Optional(n)})
+	}},
 	{"in_group", "g.var", 0, 0, func(n parquet.Node) *parquet.Schema {
 		return parquet.NewSchema("table", parquet.Group{"id": parquet.Int(32), "g": parquet.Group{"x": parquet.Int(32), "var": n}})
 	}},
@@ -580,7 +583,7 @@ type c19IO[A, R any] struct {
 
 func c19Shredding(c *Ctx, r *gen.Rand) {
 	shred, sd := c19ShredNode(r, 0)
-	pl := c19Places[gen.Pick(r, []int{0, 0, 1, 1, 2})]
+	pl := c19Places[gen.Pick(r, []int{0, 0, 1, 1, 2, 2, 3})]
 	// values per row
 	var rowVals [][]*specreader.VT
 	total := 0
@@ -595,7 +598,12 @@ func c19Shredding(c *Ctx, r *gen.Rand) {
 			if r.P(60) {
 				v = c19Matching(r, sd, 0)
 			}
-			c19Count(c, v)
+			if pl.name == "optional" && r.P(30) {
+				v = nil // the optional group itself is null (a Go nil in the `any` field)
+				c.Obs("optional_group_null", 1)
+			} else {
+				c19Count(c, v)
+			}
 			vs = append(vs, v)
 			total++
 		}
@@ -625,6 +633,11 @@ func c19Shredding(c *Ctx, r *gen.Rand) {
 			mk:     func(id int, v []any) c19TopAny { return c19TopAny{ID: int32(id), Var: v[0]} },
 			getAny: func(a c19TopAny) []any { return []any{a.Var} },
 			getRaw: func(a c19TopRaw) []c19Raw { return []c19Raw{a.Var} },
+		})
+	case "optional":
+		c19Run(c, pl, shred, sd, rowVals, writePath, goForm, c19IO[c19TopAny, c19TopRaw]{
+			mk:     func(id int, v []any) c19TopAny { return c19TopAny{ID: int32(id), Var: v[0]} },
+			getAny: func(a c19TopAny) []any { return []any{a.Var} },
 		})
 	case "repeated":
 		c19Run(c, pl, shred, sd, rowVals, writePath, goForm, c19IO[c19RepAny, c19RepRaw]{
@@ -659,6 +672,9 @@ func c19Run[A, R any](c *Ctx, pl c19Place, shred parquet.Node, sd *c19Desc, rowV
 		for i, vs := range rowVals {
 			anys := make([]any, len(vs))
 			for j, v := range vs {
+				if v == nil {
+					continue
+				}
 				anys[j] = c19Encode(v)
 				if goForm {
 					// the Go form is lossy by documentation: what is written is ValueOf(g)
@@ -670,12 +686,17 @@ func c19Run[A, R any](c *Ctx, pl c19Place, shred parquet.Node, sd *c19Desc, rowV
 					}
 					vs[j] = fromLib(lv)
 					anys[j] = g
+					if g == nil && pl.name == "optional" {
+						vs[j] = nil // a Go nil handed to an optional variant column is the null group
+					}
 				}
 			}
 			rows[i] = io.mk(i, anys)
 			if os.Getenv("VERIF_DEBUG") != "" {
 				for j, v := range vs {
-					fmt.Fprintf(os.Stderr, "row %d/%d: %#v\n", i, j, toLib(v).GoValue())
+					if v != nil {
+						fmt.Fprintf(os.Stderr, "row %d/%d: %#v\n", i, j, toLib(v).GoValue())
+					}
 				}
 			}
 		}
@@ -740,6 +761,13 @@ func c19Run[A, R any](c *Ctx, pl c19Place, shred parquet.Node, sd *c19Desc, rowV
 					return false
 				}
 				for j := range want[i] {
+					if want[i][j] == nil || got[i][j] == nil {
+						if want[i][j] != got[i][j] {
+							c.Fail("c19.shred_mismatch", with(read), "%s: row %d variant %d: null group written=%v read=%v (schema %s)", read, i, j, want[i][j] == nil, got[i][j] == nil, sdesc)
+							return false
+						}
+						continue
+					}
 					if ok, d := specreader.VTEqual(want[i][j], got[i][j]); !ok {
 						c.Fail("c19.shred_mismatch", with(read), "%s: row %d variant %d reads back as a different value: %s (schema %s, written kind %s)", read, i, j, d, sdesc, want[i][j].Kind)
 						return false
@@ -770,6 +798,11 @@ func c19Run[A, R any](c *Ctx, pl c19Place, shred parquet.Node, sd *c19Desc, rowV
 			for i := range rows {
 				out[i] = []*specreader.VT{}
 				for _, v := range rows[i] {
+					if v == nil || (v.Kind == "null" && pl.name == "optional") {
+						// in the Go form a nil stands for both the null group and the variant null
+						out[i] = append(out[i], nil)
+						continue
+					}
 					lv, err := variant.ValueOf(toLib(v).GoValue())
 					if err != nil {
 						c.Fail("c19.shred_read", with("go_mapping"), "ValueOf(GoValue(v)): %v", err)
@@ -785,6 +818,11 @@ func c19Run[A, R any](c *Ctx, pl c19Place, shred parquet.Node, sd *c19Desc, rowV
 			for i := range rows {
 				out[i] = []*specreader.VT{}
 				for _, g := range io.getAny(rows[i]) {
+					if g == nil && pl.name == "optional" {
+						// a Go nil read from an optional variant column is the null group (variant null and SQL NULL both surface as nil; C19 compares them as written)
+						out[i] = append(out[i], nil)
+						continue
+					}
 					lv, err := variant.ValueOf(g)
 					if err != nil {
 						c.Fail("c19.shred_read", with(read), "row %d: value of type %T read back is not a variant: %v", i, g, err)
@@ -869,6 +907,9 @@ func c19Run[A, R any](c *Ctx, pl c19Place, shred parquet.Node, sd *c19Desc, rowV
 		c.Obs("residual_values_stored", c19ResidualValues)
 		for _, vs := range rowVals {
 			for _, v := range vs {
+				if v == nil {
+					continue
+				}
 				switch c19Fit(sd, v) {
 				case 2:
 					c.Obs("schema_exact", 1)
@@ -1200,6 +1241,20 @@ func c19RawRead(data []byte, d *c19Desc, pl c19Place) ([][]*specreader.VT, error
 			}
 			if occ, err = c19Split(cs, pl.rep-1); err != nil {
 				return nil, fmt.Errorf("row %d: %w", i, err)
+			}
+		}
+		if pl.name == "optional" {
+			null, first := false, true
+			for name, es := range cs {
+				n := es[0].D < pl.def
+				if !first && n != null {
+					return nil, fmt.Errorf("row %d: the columns of the optional variant group disagree on whether the group is null (%s says null=%v)", i, name, n)
+				}
+				null, first = n, false
+			}
+			if null {
+				out[i] = append(out[i], nil)
+				continue
 			}
 		}
 		for j, ocs := range occ {
